@@ -8,6 +8,7 @@ import os
 import random
 
 import datarun
+import fixture
 import dsched
 import sx
 from datarun import Scenario
@@ -157,6 +158,7 @@ def _work(job):
         for i in range(n):
             sc = gen_scenario(rng)
             s2 = rng.getrandbits(32)
+            fixture.set_logging(i % 5 == 2)      # a fifth of the runs with every library logger at DEBUG
             if i % 2 == 0:
                 ch = dsched.PCTChooser(random.Random(s2), depth=rng.choice([1, 2, 3, 5]))
                 src = 'random'
